@@ -420,6 +420,10 @@ impl<'a> Sim<'a> {
 
         let tick = self.config.tick;
         let mut is_finished = true;
+        // The first software error of this step. It is reported once the step
+        // is complete, so that every host and the simulation clock still
+        // advance by one tick.
+        let mut software_error = None;
 
         // Tick the networking, processing messages. This is done before
         // ticking any other runtime, as they might be waiting on network
@@ -427,8 +431,8 @@ impl<'a> Sim<'a> {
         self.world.borrow_mut().topology.tick_by(tick);
 
         // Tick each host runtimes with running software. If the software
-        // completes, extract the result and return early if an error is
-        // encountered.
+        // completes, extract the result; an error is returned at the end of
+        // the step.
 
         let (mut running, stopped): (Vec<_>, Vec<_>) = self
             .rts
@@ -498,7 +502,14 @@ impl<'a> Sim<'a> {
                     turmoil_io_uring::host::EnterCtx { now },
                 );
                 rt.tick(tick)
-            })?;
+            });
+            let is_software_finished = match is_software_finished {
+                Ok(finished) => finished,
+                Err(e) => {
+                    software_error.get_or_insert(e);
+                    true
+                }
+            };
 
             if rt.is_client() {
                 is_finished = is_finished && is_software_finished;
@@ -532,6 +543,10 @@ impl<'a> Sim<'a> {
 
         self.elapsed += tick;
         self.steps += 1;
+
+        if let Some(e) = software_error {
+            return Err(e);
+        }
 
         if self.elapsed > self.config.duration && !is_finished {
             return Err(format!(
